@@ -6,7 +6,7 @@ for d in seeded/*/; do
   [ -f $d/patch.diff ] || continue
   git -C /repo apply $PWD/$d/patch.diff || { echo "cannot apply $d"; continue; }
   ./check all --quiet --evidence-dir /tmp/seed-evidence --keys-out $PWD/$d/keys.json > /dev/null 2>&1
-  git -C /repo checkout -- .
+  git -C /repo checkout -- . && git -C /repo clean -fdq -- src
   python3 - "$d" <<'PY'
 import json, subprocess, sys, os
 d = sys.argv[1].rstrip("/")
